@@ -82,6 +82,11 @@ class Fold(ast.NodeTransformer):
 
     def visit_BinOp(self, n):
         self.generic_visit(n)
+        # ["a", "b"] + ["c"]: concatenation of two displays of constants (lists with lists, tuples with tuples)
+        if isinstance(n.op, ast.Add) and type(n.left) is type(n.right) and isinstance(n.left, (ast.List, ast.Tuple)) \
+                and all(isinstance(x, ast.Constant) for x in n.left.elts + n.right.elts):
+            self.changed = True
+            return ast.copy_location(type(n.left)(elts=list(n.left.elts) + list(n.right.elts), ctx=ast.Load()), n)
         a, b = _const_value(n.left), _const_value(n.right)
         if a[0] and b[0] and isinstance(n.op, ast.Add) and isinstance(a[1], str) and isinstance(b[1], str):
             self.changed = True
@@ -108,8 +113,66 @@ class Fold(ast.NodeTransformer):
         self.changed = True
         return ast.copy_location(ast.Constant(value="".join(parts)), n)
 
+    def _flatten_starred(self, elts):
+        """(a, *[x, y], b) -> (a, x, y, b)   for starred list / tuple displays"""
+        out, hit = [], False
+        for e in elts:
+            if isinstance(e, ast.Starred) and isinstance(e.value, (ast.List, ast.Tuple)) and not any(isinstance(x, ast.Starred) for x in e.value.elts):
+                out += list(e.value.elts)
+                hit = True
+            else:
+                out.append(e)
+        if hit:
+            self.changed = True
+        return out
+
+    def visit_Tuple(self, n):
+        self.generic_visit(n)
+        if isinstance(n.ctx, ast.Load):
+            n.elts = self._flatten_starred(n.elts)
+        return n
+
+    def visit_List(self, n):
+        self.generic_visit(n)
+        if isinstance(n.ctx, ast.Load):
+            n.elts = self._flatten_starred(n.elts)
+        return n
+
     def visit_Call(self, n):
         self.generic_visit(n)
+        n.args = self._flatten_starred(n.args)
+        # "{kind}_{field}".format(kind="sample", field="ids") / MODULE_CONSTANT.format(..) with constant arguments
+        if isinstance(n.func, ast.Attribute) and n.func.attr == "format" and all(isinstance(a_, ast.Constant) for a_ in n.args) \
+                and all(k_.arg is not None and isinstance(k_.value, ast.Constant) for k_ in n.keywords):
+            tmpl = n.func.value
+            if isinstance(tmpl, ast.Name) and self.repo is not None:
+                local_names = getattr(self, "_locals", None)
+                if local_names is None:
+                    a__ = self.f.node.args
+                    local_names = {p_.arg for p_ in a__.posonlyargs + a__.args + a__.kwonlyargs} | {x.id for x in ast.walk(self.f.node) if isinstance(x, ast.Name) and isinstance(x.ctx, ast.Store)}
+                    self._locals = local_names
+                tmpl = self.repo.const_value(self.f.mod, tmpl.id) if tmpl.id not in local_names else None
+            if isinstance(tmpl, ast.Constant) and isinstance(tmpl.value, str):
+                try:
+                    v_ = tmpl.value.format(*[a_.value for a_ in n.args], **{k_.arg: k_.value.value for k_ in n.keywords})
+                except Exception:
+                    v_ = None
+                if v_ is not None:
+                    self.changed = True
+                    return ast.copy_location(ast.Constant(value=v_), n)
+        # list({"a": x, "b": y}) / tuple(..) / list({..}.keys()): the constant keys in display order ; list(["a", "b"]) a fresh copy
+        if isinstance(n.func, ast.Name) and n.func.id in ("list", "tuple") and len(n.args) == 1 and not n.keywords:
+            a0 = n.args[0]
+            if isinstance(a0, ast.Call) and isinstance(a0.func, ast.Attribute) and a0.func.attr == "keys" and not a0.args and not a0.keywords and isinstance(a0.func.value, ast.Dict):
+                a0 = a0.func.value
+            cls_ = ast.List if n.func.id == "list" else ast.Tuple
+            if isinstance(a0, ast.Dict) and a0.keys and None not in a0.keys and all(isinstance(k, ast.Constant) for k in a0.keys) \
+                    and all(isinstance(v, (ast.Constant, ast.Name)) for v in a0.values):
+                self.changed = True
+                return ast.copy_location(cls_(elts=[copy.deepcopy(k) for k in a0.keys], ctx=ast.Load()), n)
+            if isinstance(a0, (ast.List, ast.Tuple)) and all(isinstance(x, ast.Constant) for x in a0.elts):
+                self.changed = True
+                return ast.copy_location(cls_(elts=[copy.deepcopy(x) for x in a0.elts], ctx=ast.Load()), n)
         # zip(K(a, b), ..) / tuple(K(a, b)) / list(K(a, b)): a NamedTuple construction iterated on the spot is the display of its arguments
         if isinstance(n.func, ast.Name) and n.func.id in ("zip", "tuple", "list", "enumerate"):
             for i_, a_ in enumerate(n.args):
@@ -1546,6 +1609,16 @@ def unroll_loops(repo, f, counter):
             changed[0] = True
             return items
 
+        def visit_Starred(self, n):
+            self.generic_visit(n)
+            # *(E(c) for c in CONST)  ->  *[E(c0), E(c1), ..]   (flattened into the enclosing display / call by the folder)
+            if isinstance(n.value, ast.GeneratorExp):
+                g = n.value
+                it = self._expand(g, lambda b: _Sub(b, {}).visit(copy.deepcopy(g.elt)))
+                if it is not None:
+                    n.value = ast.List(elts=it, ctx=ast.Load())
+            return n
+
         def visit_ListComp(self, n):
             self.generic_visit(n)
             it = self._expand(n, lambda b: _Sub(b, {}).visit(copy.deepcopy(n.elt)))
@@ -2668,6 +2741,217 @@ def star_unpack_of_lists(fnode):
     return changed
 
 
+
+_READONLY_BUILTINS = {"list", "tuple", "enumerate", "zip", "len", "sorted", "set", "frozenset", "reversed", "dict", "iter"}
+_LIST_MUTATORS = {"append", "extend", "insert", "remove", "pop", "sort", "reverse", "clear", "update", "setdefault", "popitem", "__setitem__", "__delitem__"}
+
+
+def propagate_readonly_displays(repo, f):
+    """cols = ["a", "b"] / spec = {"a": x, "b": y}  bound once at the top level of the function and only ever *read*
+    (iterated, tested with `in`, concatenated, subscript index, handed to a builtin or to a library call) is replaced by the
+    display where it is read.  A use that could mutate or keep the object (a method call on it, a store through it, an
+    argument of a function of the repository, a return) blocks the rewrite."""
+    fnode = f.node
+    counts = {}
+    for x in ast.walk(fnode):
+        if isinstance(x, ast.Name) and isinstance(x.ctx, (ast.Store, ast.Del)):
+            counts[x.id] = counts.get(x.id, 0) + 1
+    a = fnode.args
+    params = {p.arg for p in a.posonlyargs + a.args + a.kwonlyargs} | ({a.vararg.arg} if a.vararg else set()) | ({a.kwarg.arg} if a.kwarg else set())
+    repo_simple = getattr(repo, "_simple_names", None)
+    if repo_simple is None:
+        repo_simple = {q.rsplit(".", 1)[-1] for q in repo.funcs}
+        repo._simple_names = repo_simple
+
+    def top_lists():
+        yield fnode.body
+        for st in fnode.body:
+            if isinstance(st, (ast.With, ast.AsyncWith)):
+                yield st.body
+
+    def stable(name):
+        return counts.get(name, 0) == 0 and name in params or counts.get(name, 0) == 1 and name not in params
+
+    def candidate(v):
+        if isinstance(v, (ast.List, ast.Tuple)) and v.elts and all(isinstance(x, ast.Constant) and isinstance(x.value, (str, int)) for x in v.elts):
+            return "seq"
+        if isinstance(v, ast.Dict) and v.keys and None not in v.keys and all(isinstance(k, ast.Constant) and isinstance(k.value, str) for k in v.keys) \
+                and all(isinstance(x, ast.Constant) or (isinstance(x, ast.Name) and stable(x.id)) for x in v.values):
+            return "dict"
+        return None
+    imports = repo.imports.get(f.mod, {})
+    defs1 = {}
+    for x in walk_own(fnode):
+        if isinstance(x, ast.Assign) and len(x.targets) == 1 and isinstance(x.targets[0], ast.Name) and counts.get(x.targets[0].id) == 1:
+            defs1[x.targets[0].id] = x.value
+
+    def external_root(root, depth=0):
+        """the receiver is a library object: a module alias of a non-repository import, or a local bound once to a call / method
+        chain rooted at one (df = pandas.DataFrame(..); u = df.drop_duplicates())"""
+        if not isinstance(root, ast.Name) or depth > 6:
+            return False
+        if root.id not in counts and root.id not in params:
+            tgt = imports.get(root.id)
+            return isinstance(tgt, str) and not tgt.startswith("batchie")
+        v = defs1.get(root.id)
+        while isinstance(v, (ast.Call, ast.Attribute, ast.Subscript)):
+            v = v.func if isinstance(v, ast.Call) else v.value
+        return isinstance(v, ast.Name) and v.id != root.id and external_root(v, depth + 1)
+    changed = False
+    for lst in top_lists():
+        for i, st in enumerate(list(lst)):
+            if not (isinstance(st, ast.Assign) and len(st.targets) == 1 and isinstance(st.targets[0], ast.Name)):
+                continue
+            nm = st.targets[0].id
+            kind = candidate(st.value)
+            if kind is None or counts.get(nm) != 1 or nm in params:
+                continue
+            par = {}
+            for later in lst:
+                for p_ in ast.walk(later):
+                    for c_ in ast.iter_child_nodes(p_):
+                        par[c_] = p_
+            uses = [x for x in ast.walk(fnode) if isinstance(x, ast.Name) and x.id == nm and isinstance(x.ctx, ast.Load)]
+            after = {id(x) for later in lst[lst.index(st) + 1:] for x in ast.walk(later)}
+            if not uses or any(id(u) not in after for u in uses):
+                continue
+            if kind == "dict":
+                # the value names must already be bound where the display is built and never re-bound: parameters, or locals bound once
+                # in an earlier statement of the same list
+                earlier = {t.id for e_ in lst[:lst.index(st)] for t in ast.walk(e_) if isinstance(t, ast.Name) and isinstance(t.ctx, ast.Store)}
+                if any(isinstance(x, ast.Name) and x.id not in params and x.id not in earlier for x in st.value.values):
+                    continue
+
+            def ok_use(u):
+                p_ = par.get(u)
+                # inside a nested function / lambda: evaluated later, possibly after a re-binding
+                q_ = p_
+                while q_ is not None:
+                    if isinstance(q_, (ast.FunctionDef, ast.AsyncFunctionDef, ast.Lambda)):
+                        return False
+                    q_ = par.get(q_)
+                if isinstance(p_, (ast.For, ast.comprehension)) and p_.iter is u:
+                    return True
+                if isinstance(p_, ast.Compare) and len(p_.ops) == 1 and isinstance(p_.ops[0], (ast.In, ast.NotIn)) and p_.comparators[0] is u:
+                    return True
+                if isinstance(p_, ast.BinOp) and isinstance(p_.op, ast.Add) and kind == "seq":
+                    return True
+                if isinstance(p_, ast.Starred):
+                    return True
+                if isinstance(p_, ast.Subscript) and p_.slice is u and kind == "seq":
+                    return True
+                if isinstance(p_, ast.keyword):
+                    p_ = par.get(p_)
+                    if not isinstance(p_, ast.Call) or p_.func is u:
+                        return False
+                if isinstance(p_, ast.Call) and p_.func is not u:
+                    fn_ = p_.func
+                    if isinstance(fn_, ast.Name):
+                        return fn_.id in _READONLY_BUILTINS and fn_.id not in counts and fn_.id not in params
+                    if isinstance(fn_, ast.Attribute):
+                        root = fn_
+                        while isinstance(root, ast.Attribute):
+                            root = root.value
+                        if isinstance(root, ast.Name) and root.id == nm or fn_.attr in _LIST_MUTATORS:
+                            return False
+                        if fn_.attr in repo_simple and not external_root(root):
+                            return False
+                        return True                      # a library method / function (pandas, numpy): reads its argument
+                return False
+            if not all(ok_use(u) for u in uses):
+                continue
+
+            class S(ast.NodeTransformer):
+                def visit_Name(self, n):
+                    if n.id == nm and isinstance(n.ctx, ast.Load):
+                        return ast.copy_location(copy.deepcopy(st.value), n)
+                    return n
+            for later in lst[lst.index(st) + 1:]:
+                S().visit(later)
+            lst.remove(st)
+            changed = True
+    if changed:
+        ast.fix_missing_locations(fnode)
+    return changed
+
+
+
+def ssa_straightline(fnode, counter):
+    """x = A; use(x); x = B; use(x)   in one statement list, x bound nowhere else and read nowhere else (and never before its first
+    binding in the list)  ->  x__s0 = A; use(x__s0); x__s1 = B; use(x__s1): every version is then a single definition that the rules
+    read through.  (Left behind when a loop whose body names its own intermediate results has been unrolled or a consumer's body has
+    been spliced into several yield sites.)"""
+    a = fnode.args
+    params = {p.arg for p in a.posonlyargs + a.args + a.kwonlyargs} | ({a.vararg.arg} if a.vararg else set()) | ({a.kwarg.arg} if a.kwarg else set())
+    stores, loads, nested_loads = {}, {}, set()
+    for x in ast.walk(fnode):
+        if isinstance(x, ast.Name):
+            if isinstance(x.ctx, (ast.Store, ast.Del)):
+                stores[x.id] = stores.get(x.id, 0) + 1
+            else:
+                loads.setdefault(x.id, []).append(x)
+        elif isinstance(x, (ast.FunctionDef, ast.AsyncFunctionDef, ast.Lambda)) and x is not fnode:
+            for y in ast.walk(x):
+                if isinstance(y, ast.Name):
+                    nested_loads.add(y.id)
+        elif isinstance(x, (ast.Global, ast.Nonlocal)):
+            nested_loads |= set(x.names)
+    changed = False
+
+    def lists(stmts):
+        yield stmts
+        for st in stmts:
+            if isinstance(st, (ast.FunctionDef, ast.AsyncFunctionDef, ast.ClassDef)):
+                continue
+            for fld in ("body", "orelse", "finalbody"):
+                sub = getattr(st, fld, None)
+                if isinstance(sub, list) and sub and isinstance(sub[0], ast.stmt):
+                    yield from lists(sub)
+            if isinstance(st, ast.Try):
+                for h in st.handlers:
+                    yield from lists(h.body)
+    for L in list(lists(fnode.body)):
+        defs = {}
+        for i, st in enumerate(L):
+            if isinstance(st, ast.Assign) and len(st.targets) == 1 and isinstance(st.targets[0], ast.Name):
+                defs.setdefault(st.targets[0].id, []).append(i)
+        for x, idxs in defs.items():
+            if len(idxs) < 2 or stores.get(x) != len(idxs) or x in params or x in nested_loads or x.startswith("__"):
+                continue
+            inside = {}
+            for i, st in enumerate(L):
+                for y in ast.walk(st):
+                    if isinstance(y, ast.Name) and y.id == x and isinstance(y.ctx, ast.Load):
+                        inside[id(y)] = i
+            if any(id(y) not in inside for y in loads.get(x, [])):
+                continue                                    # read outside this list
+            if any(i < idxs[0] or (i == idxs[0] and True) for i in inside.values() if i <= idxs[0]):
+                continue                                    # read before (or in) its first binding
+            k0 = counter[0]
+            counter[0] += 1
+
+            def version_at(i, in_value_of_def):
+                # the binding that reaches statement i: the last def with index < i (a def's own value reads the previous version)
+                v = -1
+                for n_, j in enumerate(idxs):
+                    if j < i:
+                        v = n_
+                return v
+            for i, st in enumerate(L):
+                v = version_at(i, False)
+                for y in ast.walk(st):
+                    if isinstance(y, ast.Name) and y.id == x and isinstance(y.ctx, ast.Load):
+                        y.id = f"{x}__s{k0}_{v}"
+            for n_, j in enumerate(idxs):
+                L[j].targets[0].id = f"{x}__s{k0}_{n_}"
+            changed = True
+            # bookkeeping for further names of the same pass
+            stores[x] = 0
+    if changed:
+        ast.fix_missing_locations(fnode)
+    return changed
+
+
 # --------------------------------------------------------------------------------------------------- deferred raise
 def undefer_raises(stmts):
     """problem = None; if A: problem = M1 [elif B: problem = M2 ...]; if problem is not None: raise E(problem)
@@ -2887,6 +3171,12 @@ def partial_evaluate(repo, max_rounds=8):
             if propagate_constant_locals(f.node):
                 ch = True
                 steps.append("constants")
+            if (steps or q in getattr(repo, "inlined", {})) and propagate_readonly_displays(repo, f):
+                ch = True
+                steps.append("readonly-displays")
+            if steps and ssa_straightline(f.node, counter):
+                ch = True
+                steps.append("ssa")
             if steps and propagate_constants_straightline(f.node):
                 ch = True
                 steps.append("constants-in-order")
